@@ -62,6 +62,19 @@ WideMask == /\ IsEvent("widemask")
             /\ \A i \in 1..Len(Ev.probes) : Ev.contains[i] <=> B!ContainsB(Ev.a, Ev.m, Ev.probes[i])
             /\ silent' = FALSE
 
+(* real-width explicit ranges [first, last] of at most 2^16 elements (also the WHOLE space of the one- and two-octet hardware
+   addresses, which begins at all-zeros and ends at all-ones): "contains exactly the addresses between its ends, and iterating it
+   visits each address ... exactly once in increasing order and terminates, including ranges that end at the all-ones address" *)
+WidePair == /\ IsEvent("widepair")
+            /\ Ev.count \in 1..65536
+            /\ ~B!Wraps(Ev.first, Ev.count - 1) /\ B!AddK(Ev.first, Ev.count - 1) = Ev.last      \* the scenario is what it says
+            /\ ~Ev.threw
+            /\ \A i \in 1..Len(Ev.probes) : Ev.contains[i] <=> (B!LexLE(Ev.first, Ev.probes[i]) /\ B!LexLE(Ev.probes[i], Ev.last))
+            /\ Ev.iterable
+            /\ Ev.terminated
+            /\ Ev.visited = [i \in 1..Ev.count |-> i - 1]            \* offsets from first: first .. last, increasing, once
+            /\ silent' = FALSE
+
 (* "equality and ordering agree with the numeric order of the address bytes, hashing is consistent with equality" *)
 Cmp == /\ IsEvent("cmp")
        /\ Ev.ra = Ev.a /\ Ev.rb = Ev.b                               \* the objects hold the bytes they were built from
@@ -88,7 +101,7 @@ Parse == /\ IsEvent("parse")
             /\ c = "reject" => ~Ev.ok
             /\ Ev.ok => Ev.back = Ev.val                             \* whatever was accepted: its textual form parses back to it
             /\ silent' = (c = "unspec")
-Next == RangeEv \/ PostInc \/ Wide \/ WideMask \/ Cmp \/ RoundTrip \/ Parse
+Next == RangeEv \/ PostInc \/ Wide \/ WidePair \/ WideMask \/ Cmp \/ RoundTrip \/ Parse
 Spec == Init /\ [][Next]_vars
 MarkSilent == NoteSkipped(silent)
 =============================================================================
